@@ -345,10 +345,11 @@ func genFSFault(w *simrt.Choices, nTargets int) fsFault {
 		return f
 	}
 	if w.Choose(4) == 0 {
-		f.Stall = []time.Duration{200 * time.Millisecond, 2 * time.Second, 7 * time.Second}[w.Choose(3)]
+		f.Stall = []time.Duration{200 * time.Millisecond, 2 * time.Second, 7 * time.Second, 12 * time.Second}[w.Choose(4)]
 		if f.Len > 4 {
-			// a stall is a delay, not an outage: keep the whole of it (here at most 28 s) well below
-			// the patience of the harness's own clients, which would otherwise give up first
+			// a stall is a delay, not an outage: keep the whole of it (here at most 48 s - longer
+			// than the shortest idle timeout in use, which is about a silent CLIENT) well below the
+			// patience of the harness's own clients (>= 120 s), which would otherwise give up first
 			f.Len = 4
 		}
 	}
